@@ -163,3 +163,92 @@ def flows_from(body, l, pred, depth=12, seen=None):
                 if a['k'] != 'const' and flows_from(body, a['pl']['l'], pred, depth - 1, seen):
                     return True
     return False
+
+
+# ---- forward use analysis (what happens to a value) ---------------------------------------------
+def uses_of(body, l):
+    """syntactic uses of local l in non-cleanup blocks:
+    ('assign', bb, lhs_place, rv)  l is read by an assignment's rvalue
+    ('call', bb, term, argidx)     l is (part of) a call argument
+    ('switch', bb, term)           l (or its discriminant read in that block) feeds a SwitchInt
+    ('yield', bb, term) / ('return', bb, None) / ('drop', bb, term)"""
+    out = []
+    for i, bl in enumerate(body.blocks):
+        if bl['cleanup']:
+            continue
+        discr_locals = set()
+        for st in bl['stmts']:
+            if st['s'] != 'assign':
+                continue
+            rv = st['rv']
+            if any(p['l'] == l for p in operand_places(rv)):
+                if rv.get('rv') == 'discr':
+                    discr_locals.add(st['lhs']['l'])
+                    out.append(('discr', i, st['lhs'], rv))
+                else:
+                    out.append(('assign', i, st['lhs'], rv))
+        t = bl['term']
+        k = t['k']
+        if k == 'call':
+            for ai, a in enumerate(t['args']):
+                if a['k'] != 'const' and a['pl']['l'] == l:
+                    out.append(('call', i, t, ai))
+        elif k == 'switch':
+            d = t['discr']
+            if d['k'] != 'const' and (d['pl']['l'] == l or d['pl']['l'] in discr_locals):
+                out.append(('switch', i, t))
+        elif k == 'yield':
+            if any(p['l'] == l for p in operand_places(t['value'])):
+                out.append(('yield', i, t))
+        elif k == 'drop':
+            if t['pl']['l'] == l:
+                out.append(('drop', i, t))
+        elif k == 'return' and l == 0:
+            out.append(('return', i, None))
+    return out
+
+
+def fate(body, l, classify_call, depth=10, seen=None):
+    """follow a value forward through moves and wrapper calls; returns a set of fates:
+    'propagated' (returned / yielded / `?` / passed to an accepted consumer), 'matched',
+    'swallowed:<callee>' (explicitly discarded), 'dropped' (never looked at), 'stored'."""
+    seen = seen if seen is not None else set()
+    if l in seen or depth < 0:
+        return set()
+    seen.add(l)
+    fates = set()
+    us = uses_of(body, l)
+    real = [u for u in us if u[0] != 'drop']
+    if l == 0:
+        fates.add('propagated')
+    if not real:
+        fates.add('dropped')
+        return fates
+    for u in real:
+        kind = u[0]
+        if kind == 'assign':
+            lhs = u[2]
+            if lhs['p']:
+                fates.add('stored')
+            elif lhs['l'] == 0:
+                fates.add('propagated')
+            else:
+                fates |= fate(body, lhs['l'], classify_call, depth - 1, seen)
+        elif kind == 'discr' or kind == 'switch':
+            fates.add('matched')
+        elif kind == 'yield' or kind == 'return':
+            fates.add('propagated')
+        elif kind == 'call':
+            t = u[2]
+            verdict = classify_call(t, u[3])
+            if verdict == 'follow':
+                d = t['dest']
+                if d['p']:
+                    fates.add('stored')
+                elif d['l'] == 0:
+                    fates.add('propagated')
+                else:
+                    fates |= fate(body, d['l'], classify_call, depth - 1, seen)
+            else:
+                fates.add(verdict)
+    return fates
